@@ -49,6 +49,7 @@ class Case:
         self.marker, self.kind, self.op, self.args = marker, kind, op, args
         self.passed, self.supported, self.family = passed, supported, family
         self.pos: Optional[Tuple[int, int]] = None      # (row, col) of the lambda / def keyword
+        self.row_group: Optional[int] = None             # chain id: label decided per physical row after rendering
 
 
 class LayoutGen:
@@ -194,12 +195,14 @@ class LayoutGen:
             out += recv
             for i, (op, args) in enumerate(calls):
                 m = self.marker("lambda", op, args, True, False, "backslash")
+                self.cases[m].row_group = id(calls)
                 out += "%s.%s(%s)" % (" \\\n" + IND1 if i and r.random() < .7 else "", op, self.lam(m, args, op, False))
         elif style == "tail":
             # a multi-line first argument, the chain continues on its last line
             out += recv
             for i, (op, args) in enumerate(calls):
                 m = self.marker("lambda", op, args, True, False, "tail")
+                self.cases[m].row_group = id(calls)
                 out += "%s.%s(%s)" % (self.hop() if i else "", op, self.lam(m, args, op, i == 0 or r.random() < .3))
         else:  # funny: a line break at every legal point with some probability
             out += recv
@@ -466,7 +469,25 @@ def generate(rng, real: bool, n_stmts: int) -> Tuple[str, Dict[int, Case]]:
     pre = PRELUDE if rng.random() < .9 else PRELUDE.replace("def ident(f): return f", "ident = lambda f: f")
     full = pre + text
     src = strip_tags(full, g.cases)
+    label_row_groups(g.cases)
     return src, g.cases
+
+
+def label_row_groups(cases: Dict[int, Case]):
+    """backslash continuations and chains that continue on the last row of a multi-line argument: reading
+    starts at the callable's own row, so a call is told apart from the other calls *on its row*; documented
+    when its (method, parameter names) is unique there and no call of the chain has several parameters
+    (those never parse and take the whole logical line with them)"""
+    groups: Dict[int, List[Case]] = {}
+    for c in cases.values():
+        if c.row_group is not None:
+            groups.setdefault(c.row_group, []).append(c)
+    for cs in groups.values():
+        if any(len(c.args) != 1 for c in cs):
+            continue
+        for c in cs:
+            same = [d for d in cs if d.pos and c.pos and d.pos[0] == c.pos[0] and (d.op, d.args) == (c.op, c.args)]
+            c.supported = len(same) == 1
 
 
 # ---------------------------------------------------------------------------------- runtime objects
@@ -700,6 +721,55 @@ class Stream:
 
 
 _stream_cache: Dict[Tuple[str, int], Stream] = {}
+_ends_cache: Dict[str, Dict[Tuple[int, int], Tuple[int, int]]] = {}
+
+
+def ast_lambda_ends(path: str, lines: List[str]) -> Dict[Tuple[int, int], Tuple[int, int]]:
+    """CPython's own parser on the whole file: where every lambda expression starts and ends"""
+    if path not in _ends_cache:
+        out = {}
+        try:
+            for n in ast.walk(ast.parse("".join(lines))):
+                if isinstance(n, ast.Lambda):
+                    out[(n.lineno, n.col_offset)] = (n.end_lineno, n.end_col_offset)
+        except Exception:  # noqa
+            pass
+        _ends_cache[path] = out
+    return _ends_cache[path]
+
+
+def ast_chain(st: "Stream", ends: Dict[Tuple[int, int], Tuple[int, int]]) -> Optional[List[Tuple[int, int]]]:
+    """the call segments of the logical line a stream starts with, cut where CPython's parser says each
+    lambda expression ends (independent of the model's scan): list of (index of `lambda`, index of the
+    `,`/`)` that follows the lambda expression); None if the line does not have that shape"""
+    out: List[Tuple[int, int]] = []
+    i, n = 0, len(st.infos)
+    while i < n:
+        t = st.infos[i]
+        if t is None:
+            return None if not out else out
+        if t.type == tokenize.NEWLINE and out:
+            break
+        if t.type == tokenize.NAME and t.string == "lambda":
+            pos = (st.first + t.start[0], t.start[1])
+            if pos not in ends:
+                return None
+            er, ec = ends[pos]
+            b = i + 1
+            while b < n and st.infos[b] is not None and (st.first + st.infos[b].start[0], st.infos[b].start[1]) < (er, ec):
+                b += 1
+            while b < n and st.infos[b] is not None and st.infos[b].type in (tokenize.COMMENT, tokenize.NL):
+                b += 1
+            if b >= n or st.infos[b] is None or st.infos[b].type != tokenize.OP or st.infos[b].string not in (",", ")"):
+                return None
+            out.append((i, b))
+            if any(x is not None and x.type != tokenize.COMMENT and (x.type == tokenize.NEWLINE or x.string == "\n")
+                   for x in st.infos[i + 1:b]):
+                break
+            i = b + 1
+            continue
+        i += 1
+    return out
 
 
 def stream_for(path: str, lines: List[str], first: int) -> Stream:
